@@ -316,9 +316,9 @@ the addresses, this would give the contents), with a fuel-existential statement 
 declarations and parameter declarations spend fuel the named evaluator does not.
 
 PROVED (`compile_correct_partial`, for whole programs; `compile_correct_partial_expr` for expressions): the
-function-free fragment — no function declarations, no lambdas, no computed callees; variables (with shadowing), literals, tuples, arrays, item access, calls of bound non-function values, the
-strict natives and `display` (the short-circuiting `if`/`and`/`or`/`if_error`/`is_error` are left out: only their
-dispatch lemmas are missing, the proof is the same as for `display`): parsing + compiling such an expression in a
+function-free fragment — no function declarations, no lambdas, no computed callees; variables (with shadowing), literals, tuples, arrays, item access, calls of bound non-function values, and
+all natives of the core fragment (the strict ones, `display`, and the short-circuiting `if`/`and`/`or`/`if_error`/
+`is_error`, which evaluate only the selected argument and forward the tail slot): parsing + compiling such an expression in a
 root scope creates no cell, and evaluating the compiled expression on the cell machine, in an activation whose cells
 hold the values of the named environment under the compile-time name→cell map, gives for every fuel, configuration,
 tail flag and state exactly the named evaluator's outcome (value, error value, violation, stuck, out of fuel) and
@@ -347,9 +347,13 @@ theorem compile_correct_partial_expr (cfg : Core.Cfg) (e : Core.Expr) (hok : Cel
   obtain ⟨h1, -, h3⟩ := CellRun.compile_run_expr cfg e hok cf1 cf2 cur rok p c hp hc
   exact ⟨h1, fun fuel fr rfr tail st hs hrel => (h3 fuel fr rfr tail st hs hrel).1⟩
 
-/-- the fragment is not empty and the model runs: a program with shadowing, a tuple, display -/
+/-- the fragment is not empty: a program with shadowing, a tuple, display, and the short-circuiting natives -/
 example :
     CellRun.declsOK [.letD "x" (.int 1), .letD "y" (.call "display" [.call "add" [.var "x", .int 2]]),
-                     .letD "x" (.tup [.var "x", .var "y"])] = true := by decide
+                     .letD "x" (.tup [.var "x", .var "y"]),
+                     .letD "z" (.call "if" [.call "and" [.call "lt" [.var "y", .int 5], .call "or" [.bool false, .bool true]],
+                                           .call "if_error" [.call "mod" [.var "y", .int 0], .int 7],
+                                           .call "display" [.int 9]]),
+                     .letD "e" (.call "is_error" [.call "error" [.str "boom"]])] = true := by decide
 
 end XrayModel.C03
